@@ -938,7 +938,16 @@ func genFail(t *rapid.T, T, B *gTbl, mode genMode) failT {
 		f.SQL = fmt.Sprintf("CREATE TABLE `%s`%s AS %sSELECT id, v, %s AS q FROM %s;", newFile, cols, src.with, fx(src.qual+".id"), src.from)
 	case "create_bad":
 		f.Target, f.Refs = "", nil
-		switch fw.Range(t, "shape", 0, 2) {
+		switch fw.Range(t, "shape", 0, 3) {
+		case 3:
+			// the column list matches the query in length but names a column twice: found after the query was evaluated
+			f.SK, f.FK, f.Errno, f.Refs, f.Part = "create_as", "duplicate_column", errDuplicate, []string{S.Name}, true
+			src := source(t, S, aliased)
+			if fw.Pct(t, "dup3", 50) {
+				f.SQL = fmt.Sprintf("CREATE TABLE `%s` (a, b, a) AS %sSELECT id, v, w FROM %s;", newFile, src.with, src.from)
+			} else {
+				f.SQL = fmt.Sprintf("CREATE TABLE `%s` (a, a) AS %sSELECT id, v FROM %s;", newFile, src.with, src.from)
+			}
 		case 0:
 			f.SK, f.FK, f.Errno, f.Refs, f.Part = "create_as", "field_length", errTableLength, []string{S.Name}, true
 			src := source(t, S, aliased)
